@@ -469,6 +469,9 @@ fn judge(out: &mut Out, rng: &mut Rng, cell: &Cell, c: &Compiled, code_sig: Opti
                 if let Some(other) = shared {
                     out.count("presence.shares_an_entry_with_identical_code");
                     let _ = other;
+                } else if has_clo_param(&f.params) {
+                    // cannot be run from outside (a closure cannot be supplied), so a shared entry cannot be told from a missing one
+                    out.count("presence.not_judged_closure_parameter");
                 } else {
                     ok = false;
                     let has_entry = c.symbols.values().any(|v| v == fname);
